@@ -63,6 +63,16 @@ def number_blocks(block, counter=None):
 
 
 class DispDouble:
+    def __eq__(self, other) -> bool:
+        # "twins" compare equal (like two dataclass disposables with the same fields) although
+        # they are distinct objects; everything else compares by identity
+        if isinstance(other, DispDouble) and self.spec.get("twin") and other.spec.get("twin"):
+            return True
+        return self is other
+
+    def __hash__(self) -> int:
+        return 11 if self.spec.get("twin") else id(self)
+
     def __init__(self, run: "Run", bid: int, idx: int, spec: dict) -> None:
         self.run, self.bid, self.idx, self.spec = run, bid, idx, spec
         self.name = f"b{bid}.d{idx}"
@@ -93,9 +103,15 @@ class DispDouble:
             elif y == "one":
                 out = make_states(["A"], f"{self.name}.y")[0]
                 self.yielded = [out]
-            else:
+            elif y == "two":
                 self.yielded = make_states(["R", "A2"], f"{self.name}.y")
                 out = list(self.yielded)
+            elif y == "gen":  # any Iterable[State] is legal: a generator
+                self.yielded = make_states(["R", "A2"], f"{self.name}.y")
+                out = (st for st in list(self.yielded))
+            else:  # "values": a dict view
+                self.yielded = make_states(["R", "A2"], f"{self.name}.y")
+                out = {i: st for i, st in enumerate(self.yielded)}.values()
             for s in self.yielded:
                 r.supplied[id(s)] = s.tag
             self.enter_done += 1
